@@ -52,16 +52,21 @@ Occurs(h, n, i) ==
   /\ i + Len(n) <= Len(h)
   /\ \A j \in 0..Len(n) - 1 : At(h, i + j) = At(n, j)
 
+\* the set of occurrence positions; leftmost / rightmost occurrence or -1
+OccSet(h, n) == {i \in 0..(Len(h) - Len(n)) : Occurs(h, n, i)}
+FindSub(h, n) == LET S == OccSet(h, n) IN IF S = {} THEN -1 ELSE SetMin(S)
+RFindSub(h, n) == LET S == OccSet(h, n) IN IF S = {} THEN -1 ELSE SetMax(S)
+
+\* The same two oracles read as scans (MC_SubOracle checks ScanLemma: they coincide). The set form above is the
+\* definition because TLC evaluates it in linear time on the multi-kilobyte haystacks of recorded traces, whereas the
+\* recursion below costs quadratic time there.
 RECURSIVE FindFrom(_, _, _)
 FindFrom(h, n, i) ==
   IF i + Len(n) > Len(h) THEN -1
   ELSE IF Occurs(h, n, i) THEN i ELSE FindFrom(h, n, i + 1)
-FindSub(h, n) == FindFrom(h, n, 0)                 \* leftmost occurrence or -1
-
 RECURSIVE RFindFrom(_, _, _)
 RFindFrom(h, n, i) ==
   IF i < 0 THEN -1 ELSE IF Occurs(h, n, i) THEN i ELSE RFindFrom(h, n, i - 1)
-RFindSub(h, n) == RFindFrom(h, n, Len(h) - Len(n))  \* rightmost occurrence or -1
 
 \* find_iter: repeatedly leftmost occurrence, resume right after its end
 \* (after it + 1 for the empty needle).
